@@ -204,8 +204,10 @@ def run(ctx, rep):
         own = "markets.markets[order.market_id].blotter"
         gs = [(expanded(pco, g.exprs[0]), pol) for g, pol in cfg.guards(comp[0][0].id)]
         # the blotter is the one of the order's own market, however it is named on the way
+        from sa.kinds import absence_tolerated
         good = ("order.complete", True) in gs and (("order in %s.live_orders" % own, True) in gs or
-                                                   ("order in %s._live_orders" % own, True) in gs) and \
+                                                   ("order in %s._live_orders" % own, True) in gs or
+                                                   absence_tolerated(pco, comp[0][1])) and \
             expanded(pco, comp[0][1].func.value) == own and [utext(a) for a in comp[0][1].args] == ["order"]
     rep.check(good, "R4", key(pco, None, "a complete order leaves the live list of its own market, once"), pco)
     from sa.kinds import guard_pairs, gp
